@@ -207,7 +207,10 @@ def handle : Handler := fun op a => do
     let loc ← decLoc (← field a "loc")
     let defs ← asList decPDef (← field a "defs")
     return jopt encContainer (templateSerialize vq vt vm vs loc defs (← decContainer (← field a "container")))
-  | "utf8" => return jbytes (utf8 (← asText (← field a "s")))
+  | "utf8" =>
+    let s ← asText (← field a "s")
+    return jobj [("bytes", jbytes (utf8 s)), ("back", jopt jtext (utf8Decode (utf8 s)))]
+  | "utf8_decode" => return jopt jtext (utf8Decode (← asBytes (← field a "bs")))
   | "empty_dicts" =>
     return encContainer (emptyDictsToStrings (← decContainer (← field a "container")))
   | _ => .error s!"unknown op {op}"
